@@ -203,7 +203,7 @@ Theorem C01_run_toplevel :
   forall (t0 : Z) (m : bool) (pre post : list lop) (beh : nat -> list lop) (mode : nat),
   let s := fst (lrun (linit t0 m) pre beh) in
   snd (lrun (linit t0 m) (pre ++ LRun mode :: post) beh) =
-    snd (lrun (linit t0 m) pre beh) ++ VRunStart mode :: snd (uv_run run_fuel s beh mode) ++
+    snd (lrun (linit t0 m) pre beh) ++ VRunStart mode (loop_alive s) :: snd (uv_run run_fuel s beh mode) ++
     snd (lrun (fst (uv_run run_fuel s beh mode)) post beh).
 Proof. exact run_toplevel. Qed.
 Print Assumptions C01_run_toplevel.
